@@ -2,6 +2,7 @@ package main
 
 import (
 	"fmt"
+	"math"
 	"os"
 	"os/exec"
 	"runtime/debug"
@@ -47,6 +48,24 @@ func hostileData(r *rng) any {
 		"imap": map[int]string{1: "a"}, "smap": map[string]map[string]int{"a": {"b": 1}}, "st": S{A: 1}, "ps": &S{A: 2},
 		"i8": int8(-128), "u64": ^uint64(0), "min": int64(-1 << 63), "f32": float32(1.5), "c": complex(1, 2), "b": []byte("bytes"),
 		"t": true, "s": "str", "a": 1, "zero": 0,
+		// maps whose keys are not equal to themselves (NaN inside), keys of interface / pointer / struct / array type
+		"nanmap": map[float64]int{math.NaN(): 1, 1: 2}, "nan32": map[float32]string{float32(math.NaN()): "x"}, "nanany": map[any]string{math.NaN(): "x", "k": "y", 1: "z"},
+		"nanarr": map[[2]float64]int{{1, math.NaN()}: 1}, "nanc": map[complex128]int{complex(math.NaN(), 0): 1}, "nanst": map[struct{ F float64 }]int{{math.NaN()}: 1, {1}: 2},
+		"ptrmap": map[*S]int{nil: 1, {A: 1}: 2}, "boolmap": map[bool]any{true: nil, false: boomFn}, "nan": math.NaN(), "inf": math.Inf(-1),
+	}
+	mm := map[string]int{"k1": 1, "k2": 2, "k3": 3, "k4": 4}
+	all["mm"] = mm
+	all["del"] = func() int { // a function that empties the map being ranged over
+		for k := range mm {
+			delete(mm, k)
+		}
+		return 0
+	}
+	all["grow"] = func() int {
+		for i := 0; i < 64; i++ {
+			mm[fmt.Sprint("g", i)] = i
+		}
+		return 0
 	}
 	if r.p(15) {
 		return nil
@@ -65,7 +84,8 @@ var hostileExprs = []string{"nilstr", "str", "boom", "boomp", "rec", "recv.Next"
 	"a / zero", "a % zero", "min / (0 - 1)", "a << (0 - 1)", "a << 64", "u64 + 1", "-min", "c + c", "c == c", "xs == xs", "m == m", "f == f", "st == st", "b[0]", "i8 * i8",
 	"*ps", "*a", "&a", "<-a", "a.b.c", "s[0]", "s[1:2]", "xs[1:0]", "xs[-1:]", "xs[0:9]", "xs[:2:1]", "arr[0:1]", "len(a)", "len()", "len(s, s)", "cap(m)", "int(s)", "int8(u64)", "string(xs)", "string(boom)",
 	"print(boom)", "printf(s, boom)", "println(nilstr)", "isNull(a)", "isNull(nilptr)", "bytes(a)", "runes(s)", "duration(s)", "float64(s)", "true ? f() : 1", "t && f()", "nope.x", "1i", "1i + 1", "nil == nil", "nil.x", "nil()", "(nil)",
-	"9223372036854775808", "0x", "1e999", "1e-999 * 0", "'\\xff'", "\"\\xff\"", "`\xf0`", "a[nil]", "a[s]", "xs[s]", "xs[1.5]", "m[1]", "m[nil]", "st[0]", "st['A']", "f.x", "f[0]", "e().x"}
+	"9223372036854775808", "0x", "1e999", "1e-999 * 0", "'\\xff'", "\"\\xff\"", "`\xf0`", "a[nil]", "a[s]", "xs[s]", "xs[1.5]", "m[1]", "m[nil]", "st[0]", "st['A']", "f.x", "f[0]", "e().x",
+	"nanmap", "nan32", "nanany", "nanarr", "nanc", "nanst", "ptrmap", "boolmap", "nanmap[nan]", "nanmap[1]", "nanany[nan]", "nanany.k", "len(nanmap)", "nanmap == nanmap", "nan == nan", "nanany[nanmap]", "mm", "ptrmap[nilptr]", "boolmap[t]", "inf / inf", "int(nan)", "int64(inf)", "uint8(nan)", "string(nan)", "duration(inf)"}
 
 // C08: loading, parsing and rendering never panic.
 func propC08(c *ctx) error {
@@ -221,6 +241,28 @@ func propC08(c *ctx) error {
 			data := hostileData(r)
 			res.eval("t|"+tplSrc, true, J{"src": tplSrc})
 			guard("Add+Execute (hostile value in a directive)", tplSrc, func() {
+				m, err, _ := implLoadNoRecover([][2]string{{"t", tplSrc}})
+				if err == nil {
+					t, _ := m.tm.GetTemplate("t")
+					var sb strings.Builder
+					t.Execute(&sb, data)
+				}
+			})
+		}
+	}
+	// ranging over a map that the loop body changes (entries deleted / added by a user function called from the body), and
+	// over maps with keys that are not equal to themselves
+	for _, obj := range []string{"mm", "nanmap", "nanany", "nanarr", "nanc", "nanst", "nan32", "ptrmap", "boolmap"} {
+		for _, tplSrc := range []string{`<p :range="k, v : ` + obj + `" :text="${del()}${k}=${v}">o</p>`, `<p :range="k, v : ` + obj + `" :text="${k}${grow()}${v}">o</p>`,
+			`<p :range="` + obj + `">o</p>`, `<p :range="k : ` + obj + `" :title="${k}">o</p>`, `<ul :range="k, v : ` + obj + `"><li :range="k2, v2 : ` + obj + `" :text="${k == k2}${del()}">o</li></ul>`,
+			`<p :range=", v : ` + obj + `" :with="w := ${v}" :if="${w == w}" :text="${w}">o</p> `} {
+			data := hostileData(r)
+			if _, ok := data.(map[string]any); !ok {
+				data = hostileData(newRng(1, "C08-maps"))
+			}
+			res.eval("rm|"+tplSrc, true, J{"src": tplSrc})
+			res.count("range_over_odd_maps")
+			guard("Add+Execute (range over a map with odd keys / changed by the body)", tplSrc, func() {
 				m, err, _ := implLoadNoRecover([][2]string{{"t", tplSrc}})
 				if err == nil {
 					t, _ := m.tm.GetTemplate("t")
